@@ -33,7 +33,7 @@ LEVEL = "fault_enumeration"
 EXHAUSTIVE = True
 RULE = ("per configuration (FCN|QRES x {plain, inverse-problem Parameter, adaptive weights, both} x "
         "{SGD+momentum, Adam, RMSprop+momentum} x {no scheduler, StepLR}; static grid samplers) the interruption space "
-        "{(k, N, c): N in 3..Nmax, c in {1,2,3}, k in 1..N-1} is enumerated COMPLETELY (Nmax = 5 quick, 8 thorough): this "
+        "{(k, N, c): N in 3..Nmax, c in {1,2,3}, k in 1..N-1} is enumerated COMPLETELY (Nmax = 5 quick, 10 thorough): this "
         "(k, N, c) space is what `exhaustive` refers to; the thorough tier also enumerates all 48 configurations, the quick "
         "tier takes 8 of them covering every level of every factor. WeightSaveCallback: all check_interval in {1,2,3} "
         "x save_initial x save_final per configuration, N in {4} (quick) / {3,6} (thorough), saved module cycling over "
@@ -117,7 +117,7 @@ def gen_cases(seed, tier):
             chosen.append({"model": m, "feat": f, "opt": o, "sched": s})
         nmax, ws_n = 5, [4]
     else:
-        chosen, nmax, ws_n = cfgs, 8, [3, 6]
+        chosen, nmax, ws_n = cfgs, 10, [3, 6, 9]
     rng = np.random.default_rng([seed, 19])
     cases = []
     for ci, cfg in enumerate(chosen):
